@@ -255,6 +255,12 @@ func (e *Env) groupEmptiness(l *facts.Level) {
 			}
 			continue
 		}
+		// a bit set compared with 0 as a whole: empty exactly when no name is recorded (bits are set only by the
+		// marks of decodeOne, each for a name of the level: accept-path / write-ownership)
+		emptySet := ir.Bin("==", ir.Const(constant.MakeInt64(0), l.Names.Type()), namesMap)
+		if l.NamesBits && ((res && hasGuard(lf, emptySet)) || (!res && hasGuard(lf, ir.NotCond(emptySet)))) {
+			continue
+		}
 		if res {
 			for _, n := range l.Spec.Names() {
 				if !hasGuard(lf, ir.NotCond(look(n))) {
